@@ -8,3 +8,10 @@ check("C03", "exploration",
       "concept, ~300k calls; quick: all month/year ends and leap days + sample) with every surface form of the library's "
       "patterns; says nothing about forms outside the tables.",
       _D, "API call/return monitor + calendar reference model over a full calendar-cycle sweep", "DESIGN.md 3/C03")
+
+check("C06", "exploration",
+      "Exhaustive over the 1440 minutes x every digit notation to which a minute applies (both tiers), every named hour x "
+      "suffix, every spoken quarter/half x hour x hour form, and clock + part of day; latent anchoring observed on both "
+      "sides of the requested minute incl. equal-minute and day/month/year roll-over. Held on all of them.",
+      _D + "; an 'H o'clock' result may leave the minute unspecified", 
+      "API call/return monitor + exact hh:mm oracle and calendar model, exhaustive minute x notation enumeration", "DESIGN.md 3/C06")
